@@ -272,9 +272,10 @@ pub fn finish(ctx: &Ctx, report: Report, rule: &str, assumptions: &[&str], start
     }
 
     for (n, violation) in report.violations.iter().enumerate() {
-        let path = replay_dir.join(format!("{}-{}-{}-{}.json", ctx.property, ctx.tier.name(), ctx.seed, n));
+        let path = replay_dir.join(format!("{}-{}-{}{}-{}.json", ctx.property, ctx.tier.name(), ctx.seed, engine_suffix(), n));
         let doc = json!({
             "property": ctx.property,
+            "engine": engine_name(),
             "tier": ctx.tier.name(),
             "seed": ctx.seed,
             "class": violation.class,
@@ -360,7 +361,7 @@ pub fn finish(ctx: &Ctx, report: Report, rule: &str, assumptions: &[&str], start
 
     let evidence_dir = ctx.verif_dir.join("evidence");
     let _ = std::fs::create_dir_all(&evidence_dir);
-    let evidence_path = evidence_dir.join(format!("{}.json", ctx.property));
+    let evidence_path = evidence_dir.join(format!("{}{}.json", ctx.property, engine_suffix()));
     if let Err(e) = std::fs::write(&evidence_path, serde_json::to_string_pretty(&evidence).unwrap_or_default()) {
         eprintln!("cannot write evidence {}: {}", evidence_path.display(), e);
         return Outcome { exit_code: 2 };
@@ -392,6 +393,22 @@ pub fn finish(ctx: &Ctx, report: Report, rule: &str, assumptions: &[&str], start
     }
 
     Outcome { exit_code }
+}
+
+/// Secondary engine builds of the same monitors (tools/engines/ovf.sh: the release profile with integer-overflow
+/// checks) write their evidence and witnesses next to the primary ones; the engine script merges the summary.
+fn engine_suffix() -> String {
+    match std::env::var("VERIF_ENGINE").as_deref() {
+        Ok("overflow-checks") => ".ovf".to_string(),
+        _ => String::new(),
+    }
+}
+
+fn engine_name() -> &'static str {
+    match std::env::var("VERIF_ENGINE").as_deref() {
+        Ok("overflow-checks") => "overflow-checks",
+        _ => "release",
+    }
 }
 
 pub fn truncate(s: &str, n: usize) -> String {
